@@ -301,15 +301,23 @@ def gen_model(rng, cfg=None, feats=None):
             args = [str(x) for x in rng.permutation(fs_ + fc_)]
             use_period = F["period_filter"] and (j == 0)
             form = rng.random()
-            if form < 0.2 and len(fs_) >= 1 and len(fc_) >= 1 and not use_period and not F["excluded_states"]:
+            if (form < 0.2 or (F.get("scalar_aux") and form < 0.7)) and len(fs_) >= 1 and len(fc_) >= 1 and not use_period and not F["excluded_states"]:
                 s, c = fs_[0], fc_[0]
-                expr = f"xp.logical_or({c} == {int(rng.integers(0, spec[c]['n']))}, {s} == {int(rng.integers(0, spec[s]['n']))})"
+                scalar_style = bool(F.get("scalar_aux") or rng.random() < 0.3)
+                if scalar_style:
+                    # valid user code under lcm's contract (filters are called with scalars): the
+                    # filter reduces over its own stacked conditions; only correct row by row
+                    expr = f"xp.any(xp.asarray([{c} == {int(rng.integers(0, spec[c]['n']))}, {s} == {int(rng.integers(0, spec[s]['n']))}]))"
+                    scalar_functions.append(f"f{j}_filter")
+                    realised["scalar_filter"] = True
+                else:
+                    expr = f"xp.logical_or({c} == {int(rng.integers(0, spec[c]['n']))}, {s} == {int(rng.integers(0, spec[s]['n']))})"
                 args = [c, s]
                 if j == 0:
                     extra = [x for x in sparse_S + sparse_C if x not in args]
                     for x in extra:
                         args.append(x)
-                        expr = f"xp.logical_and({expr}, {x} >= 0)"
+                        expr = f"xp.all(xp.asarray([{expr}, {x} >= 0]))" if scalar_style else f"xp.logical_and({expr}, {x} >= 0)"
             else:
                 dims = [spec[a]["n"] for a in args] + ([T] if use_period else [])
                 tab = rng.random(dims) < 0.72
@@ -346,7 +354,15 @@ def gen_model(rng, cfg=None, feats=None):
                 env[v] = np.arange(spec[v]["n"]).reshape(sh)
             m = np.ones([spec[v]["n"] for v in sv], bool)
             for name, args, _ in tmp_desc["functions"]:
-                m = m & np.broadcast_to(ff[name](**{a: env[a] for a in args}), m.shape)
+                if name in scalar_functions:  # written for scalars: evaluate point by point
+                    mm = np.ones(m.shape, bool)
+                    for idx in np.ndindex(*m.shape):
+                        pt = {v: idx[i] for i, v in enumerate(sv)}
+                        pt["_period"] = t
+                        mm[idx] = bool(ff[name](**{a: pt[a] for a in args}))
+                    m = m & mm
+                else:
+                    m = m & np.broadcast_to(ff[name](**{a: env[a] for a in args}), m.shape)
             ns_ = len(sparse_S)
             feas_t.append(m.any(axis=tuple(range(ns_, m.ndim))) if m.ndim > ns_ else m)
         always = np.logical_and.reduce(feas_t)
